@@ -54,6 +54,10 @@ CLAIMED = {
                  "arbitrary random choices; a monitor on the value_selection funnel and on current_value decides on every explored path that each reported value is unset or a domain member.",
             "Bounded: pair, pair+isolated variable (chain-3 for some), domain 2, canonical schedule in quick (all schedules on the pair in thorough), 16-40 transitions per run; "
             "maxsum/amaxsum tables are reals (mixed int/real queries time out in z3).", "4/C10", S),
+    "C11": ("S", "All eight relation kinds are built on variables in a solver-chosen order with symbolic matrix cells / closure coefficients and a solver-chosen iteration order of the expression "
+                 "name set (= all hash seeds); for every full assignment and every partial assignment sliced in 1-2 (3) steps the engine proves keyword == positional == dict == definition, "
+                 "remaining dimensions == unassigned variables, and agreement on the completion.",
+            "Bounded: 3 variables (4 thorough), domains 2-3, fixed linear expression strings with concrete coefficients; the set-order model picks one permutation of the name universe per run.", "4/C11", S),
     "C12": ("S", "set_value_for_assignment, join and projection executed on symbolic matrix tables; the cell-wise algebraic definition is one "
                  "solver query per path, for every table value, assignment, scope pair and both argument forms.",
             "Bounded: 4 variables with domains 2,2,3,2, scopes of size <= 3, integer (and real, thorough) entries |c| <= 2^40; numpy float64 rounding above 2^53 not modelled.", "4/C12", S),
